@@ -58,8 +58,8 @@ CHECKS = {
  "C16": S("Line diffs over symbolic lines of 1-3 symbolic words (<=6/8 words in total), 3 algorithms, inline deadline none / expired / built-in 500 ms under the symbolic clock: same tags and indices as the plain expansion, segments are consecutive sub-slices of the line (pointer identity), emphasis only in Delete/Insert of a Replace and never on a line break, missing_newline agrees; both sides of the 0.5 ratio gates are witnessed." + BOUNDED,
           "symbolic execution of iter_inline_changes on symbolic text (z3), virtual clock for the inline deadline", "6/C16",
           "With the unicode feature the inline code calls tokenize_unicode_words, which for SymTxt is the harness tokenizer."),
- "C17": S("TextDiffRemapper (new/from_text_diff/slice_old/slice_new/iter_slices) and the one-call helpers utils::diff_{chars,words,unicode_words,graphemes,lines,slices} on symbolic text for all pattern pairs x 5 tokenizers x 3 algorithms: same tags as slice-wise expansion, each slice is the substring covering exactly the op's tokens (pointer+length), both texts reconstructed, no empty slice, no panic." + BOUNDED,
-          "symbolic execution of the remapper and helper functions on a symbolic string type (z3)", "6/C17"),
+ "C17": S("TextDiffRemapper (new/from_text_diff/slice_old/slice_new/iter_slices) and the one-call helpers utils::diff_{chars,words,unicode_words,graphemes,lines,slices} on symbolic text for all pattern pairs x 5 tokenizers x 3 algorithms: same tags as slice-wise expansion, each slice is the substring covering exactly the op's tokens (pointer+length), both texts reconstructed, no empty slice, no panic. The helpers' first step on real str / [u8] input, the tokenizers (lossless, in-bounds, no panic, also on invalid UTF-8), is decided by the Kani tokenizer harnesses for all inputs of 1..=2 (thorough 3) bytes." + BOUNDED,
+          "symbolic execution of the remapper and helper functions on a symbolic string type (z3); Kani/CBMC on the real str/[u8] tokenizers", "6/C17"),
  "C18": S("The real get_close_matches::<SymTxt> (both pre-filters, Myers, BinaryHeap, Ord of the string type) against an exhaustive ranking computed from a solver-decided LCS, for words/candidates up to 3 characters, up to 2/3 candidates (empty and duplicate ones included), n in 0..=3 and every cutoff at which the result can change (each attainable ratio, one ulp below/above, 0, 0.5, 1)." + BOUNDED,
           "symbolic execution of get_close_matches on symbolic strings (z3) against an exhaustive reference ranking", "6/C18"),
  "C19": S("Element comparisons are counted on every path: (a) all inputs n,m<=5/6, Myers against a reference D, Patience against its reported script; (b) a skeleton family of 50..200 (800 thorough) shared pairwise-different items plus <=2/3 free items. The bound C*(N+M+1)*(D+1) uses fixed constants (constants.json). (a) says nothing about growth and (b) is one family: periodic / small-alphabet / unrelated inputs of thousands of items are NOT claimed." + BOUNDED,
